@@ -1,6 +1,7 @@
 /-
   Control skeletons of RK23 (rk23.rs) and RK4 (rk4.rs) over the translated regions.  Core Lean only.
 -/
+import IvpModel.Gen.Static
 import IvpModel.Model.Hairer
 import IvpModel.Gen.Common
 import IvpModel.Gen.Rk23
@@ -109,7 +110,7 @@ def rk23Start {σ : Type} (P : R23Params α n) (f : Rhs α n) (ob : Obs σ α n)
     (firstStep : Option α) (hmaxArg : α) : Sum (R23State σ α n) (Result σ α n) :=
   let i := startMeter f x0 y0 P.posneg firstStep (fun f' k1 =>
     Gen.Common.hinit (f := f') (atol := P.atol) (rtol := P.rtol) (y := y0) (f0 := k1) (hmax := hmaxArg) (posneg := P.posneg)
-      (x := x0) (iord := 3))
+      (x := x0) (iord := Gen.Static.rk23_hinitOrder))
   let m := i.2.2.cb x0 x0 y0 #[]
   match afterCb f ob obs0 m x0 x0 y0 none i.2.1 with
   | .stop obs y => .inr { status := .userInterrupt, h := i.1, x := x0, y := y, m := m, obs := obs }
